@@ -245,7 +245,7 @@ def intrange(repo):
                 break
         break
     res.detail = {"cpp_type_tests": n1, "gate_range_functions": n2, "leaf_range_evaluations": n3}
-    if n1 < 4 or n2 < 2 or n3 < 150:
+    if (n1 < 4 or n2 < 2 or n3 < 150) and not res.findings:
         raise AnalysisError(f"R-INTRANGE anchors shrank: {res.detail}")
     res.samples = ["int32_t <-> [-2**31, 2**31-1]", "_bounds_can_fit_64_bit_unsigned <-> [0, 2**64-1]", "Bcd:n <-> [0, 10**(n//4)*2**(n%4)-1]"]
     res.analysed = [HG, CONS, EB]
